@@ -98,9 +98,17 @@ def _data(n, nvdim, dtype, seed):
 
 
 def _field(n, fam, nvdim, labels="default", dtype="float64", seed=0, dims=None, units=None, tol=None, unit=None):
-    lab = LABELS[labels]
-    return df.Field(_mesh(n, fam, dims, units, tol), nvdim=nvdim, value=_data(n, nvdim, dtype, seed),
-                    vdims=None if lab is None else list(lab[:nvdim]), dtype=np.dtype(dtype), unit=unit)
+    keyorder = labels.endswith("+mapping-keys-reversed")
+    lab = LABELS[labels.split("+")[0]]
+    mesh = _mesh(n, fam, dims, units, tol)
+    kw = {}
+    if keyorder and lab is not None and nvdim > 1:
+        # an explicit component-to-axis mapping whose dict lists the keys in another order than vdims
+        md = mesh.region.dims
+        vm = {lab[i]: (md[i] if i < len(md) else None) for i in range(nvdim)}
+        kw["vdim_mapping"] = dict(reversed(list(vm.items())))
+    return df.Field(mesh, nvdim=nvdim, value=_data(n, nvdim, dtype, seed),
+                    vdims=None if lab is None else list(lab[:nvdim]), dtype=np.dtype(dtype), unit=unit, **kw)
 
 
 def _labels(f):
@@ -214,7 +222,7 @@ def unit_export(ctx):
     dims = ctx.choose("dims", C.DIMSETS[len(n)])
     units = ctx.choose("units", ["default", "distinct"])
     nvdim = ctx.choose("nvdim", [1, 2, 3, 4])
-    labels = ctx.choose("labels", ["default", "custom", "odd"] if thorough else ["default", "custom"])
+    labels = ctx.choose("labels", ["default", "custom", "custom+mapping-keys-reversed"] + (["odd"] if thorough else []))
     dtype = ctx.choose("dtype", DTYPES_T if thorough else DTYPES_Q)
     tol = ctx.choose("tolerance", [None, 1e-6] if thorough else [None])
     unit = "A/m" if nvdim % 2 else None
@@ -323,7 +331,7 @@ def _uneven_meshes(tier):
 def unit_reject_uneven(ctx):
     thorough = ctx.tier == "thorough"
     n = ctx.choose("n", _uneven_meshes(ctx.tier))
-    fam = ctx.choose("geom", FAM_T if thorough else FAM_Q)
+    fam = ctx.choose("geom", FAM_T if thorough else FAM_Q + ["offset>>edge"])  # offset >> spacing: a tolerance relative to the coordinate is too lax
     axis = ctx.choose("axis", [a for a in range(len(n)) if n[a] >= 3])
     which = ctx.choose("coordinate", ["second", "last", "first"])
     amount = ctx.choose("moved-by", [0.1, -0.1, 0.5] if thorough else [0.1, -0.1])
